@@ -61,17 +61,15 @@ CONFIG = dict(
                    "covered by the runtime oracle only)",
                    "soundness of describe on arbitrary (non-compiler) instruction streams is not claimed (DUP_TOP duplicates text)"],
     timeout={"quick": 900, "thorough": 5400},
-    NOTES=("Suspected finding (not in known_findings.json, cases carry _sig C08_const_repr_not_source and are reported under "
-           "extra_legs.suspected_finding_* instead of as violations): a constant whose repr is not source-equivalent in its "
-           "position: `as d[...]` -> 'd[Ellipsis]' (Name, not the constant), `as (1).x` -> '1.x' and `as (-1).x` -> '-1.x' "
-           "(do not parse / parse differently). Comparison with the ast is modulo what the compiler erases: List vs Tuple "
-           "targets, omitted slice bound vs None, private-name mangling inside classes. "
+    NOTES=("Finding F16 (constants whose repr is not source-equivalent in their position: `as d[...]`, `as (1).x`, `as (-1).x`) "
+           "was found by this check and is fixed in /repo (aa74ef3); these forms are now ordinary cases under the strict ast oracle. "
+           "Comparison with the ast is modulo what the compiler erases: List vs Tuple targets, omitted slice bound vs None, "
+           "private-name mangling inside classes. "
            "start_line/skip-count are not modelled in Coq (M_Analysis belongs to C01); they are tied by locating the store "
            "sequence independently (END_SEND / exception table via dis) and comparing analyze_with_blocks' varname and "
            "start_line per site."),
 )
 
-SIG_CONST = G.SIG_CONST
 
 # ------------------------------------------------------------------ hand-written programs
 N = lambda k, s: ["name", k, s]
@@ -103,7 +101,8 @@ def specials():
              ["tattr", ["call", ["call", lf, []], [C("'k'")]], "y"]]
     subs = [["tsub", ld, C("'k'")], ["tsub", ld, N("fast", "n0")], ["tsub", ld, ["sub", lo, C("0")]], ["tsub", ld, C("(1, 2)")],
             ["tsub", ld, C("-1")], ["tsub", ld, C("1+2j")], ["tsub", ["sub", ld, C("'sub'")], C("'two'")],
-            ["tsub", ["mcall", ld, "val", [C("'sub'")]], C("'three'")], ["tsub", ld, C("None")], ["tsub", ld, C("b'x'")]]
+            ["tsub", ["mcall", ld, "val", [C("'sub'")]], C("'three'")], ["tsub", ld, C("None")], ["tsub", ld, C("b'x'")], ["tsub", ld, C("...")],
+            ["tsub", ["sub", ld, C("...")], C("...")]]
     slices = [["tslice", lo, C("1"), C("2")], ["tslice", lo, None, C("2")], ["tslice", lo, C("1"), None], ["tslice", lo, None, None],
               ["tslice", lo, N("fast", "n0"), N("global", "gn")], ["tsub", ["slice", lo, C("1"), None], C("0")]]
     a, b, c = ["tname", "fast", "a"], ["tname", "fast", "b"], ["tname", "fast", "c"]
@@ -140,17 +139,15 @@ def specials():
     big["bigconsts"] = True
     out.append(big)
     # attribute of a constant: compiles, cannot run
-    so = _prog([[["tattr", C("'s'"), "y"], ["tattr", C("None"), "y"], ["tattr", C("(1, 2)"), "y"]]])
+    so = _prog([[["tattr", C("'s'"), "y"], ["tattr", C("None"), "y"], ["tattr", C("(1, 2)"), "y"]],
+                [["tattr", C("1"), "x"], ["tattr", C("-1"), "x"], ["tattr", C("1.5"), "y"], ["tattr", C("1+2j"), "y"]],
+                [["tattr", ["mcall", C("300"), "bit_length", []], "y"], ["tattr", ["attr", C("7"), "x"], "y"],
+                 ["tsub", ld, ["attr", C("-1"), "real"]], ["tattr", C("..."), "y"], ["tattr", C("True"), "y"]],
+                [["ttuple", [["tattr", C("0"), "x"], ["tstar", [], ["tattr", C("-1"), "val"], [], "list"]], "tuple"],
+                 ["tattr", ["call", lf, [["attr", C("1"), "real"], C("...")]], "x"]]])
     so["static_only"] = True
     out.append(so)
     return out
-
-
-def const_finding_specials():
-    """suspected finding (not in known_findings.json): constants whose repr does not read back as the
-    same expression in that position"""
-    ld = N("fast", "ld")
-    return [_prog([[["tsub", ld, C("...")]]]), _prog([[["tattr", C("1"), "real2"]]]), _prog([[["tattr", C("-1"), "real2"]]])]
 
 
 # ------------------------------------------------------------------ site computation
@@ -215,9 +212,6 @@ def make_inputs(tier, seed):
             if spec.get("bigconsts"):
                 d["_kind"] = "raw"  # EXTENDED_ARG prefixes of constants/names are outside the compiler model
             yield d
-    for spec in const_finding_specials():
-        for n in range(len(gen_sites(spec))):
-            yield {"src": "gen", "spec": spec, "site": n, "_sig": SIG_CONST}
     # the same programs compiled by CPython 3.11 (store sequences -> Coq with version V311)
     py311 = OTHER_PYTHONS[0][1]
     if tier == "thorough" and os.path.exists(py311):
@@ -301,8 +295,6 @@ def coq_case(desc, obs):
 def direct_oracle(desc, obs):
     if desc["src"] == "rt":
         return "context missing from the extracted stack" if obs.get("missing") else None
-    if desc.get("_sig") == SIG_CONST:
-        return None  # reported through extra_legs' info (suspected finding), see const_finding_report
     if not obs.get("matched"):
         return None  # counted in classify; the item could not be located in the ast by source position
     msgs = []
@@ -361,7 +353,10 @@ def run_other(py, shims, specs, timeout=1500, sites=False):
     from .common import REPO, ROOT
     path = [REPO, ROOT]
     if shims:
-        path.insert(1, os.path.join(ROOT, "proto", "shims"))
+        for d in (os.path.join(ROOT, "harness", "shims"), os.path.join(ROOT, "proto", "shims")):
+            if os.path.isdir(d):
+                path.insert(1, d)
+                break
     env = dict(os.environ, PYTHONPATH=os.pathsep.join(path), PYTHONHASHSEED="0", PYTHONDONTWRITEBYTECODE="1")
     p = subprocess.run([py, "-m", "harness.c08_sub"] + (["--sites"] if sites else []), input=json.dumps(specs), stdout=subprocess.PIPE, stderr=subprocess.PIPE,
                        text=True, env=env, timeout=timeout, cwd=ROOT)
@@ -391,13 +386,6 @@ def extra_legs(tier, seed):
         for p in probs[:2]:
             viol.append({"what": "runtime leg: " + p, "input": {"spec": spec, "source": G.build_source(spec)}})
     info["runtime_3.12"] = dict(programs=len(specs), contexts=nctx, **stats)
-    # suspected finding: documented here, not a violation (coordinator decides)
-    rep = []
-    for spec in const_finding_specials():
-        for o in gen_sites(spec):
-            rep.append({"target": o.get("target_src"), "varname": o["obs"], "parses_to_target": o.get("ast_ok")})
-            n_eval += 1
-    info["suspected_finding_" + SIG_CONST] = rep
     if tier == "thorough":
         sub = specs[: 1500]
         for name, py, shims in OTHER_PYTHONS:
